@@ -5,6 +5,7 @@ import Fdo.Cbor.TypedSuffix
 import Fdo.Cbor.TypedWF
 import Fdo.Cbor.WellFormedLimits
 import Fdo.Cbor.TypedLimit
+import Fdo.Cbor.TypedAppend
 import Fdo.Cbor.TypedProofs
 import Fdo.Gen.Cbor
 /-
@@ -181,6 +182,13 @@ of, or invented. -/
 theorem typed_decode_consumes_prefix (ok : CertOracle) (f d : Nat) (s : Schema) (b : Bytes) (v : Val) (r : Bytes)
     (h : decodeS ok f d s b = some (v, r)) : ∃ p, b = p ++ r :=
   decodeS_consumes_prefix ok f d s b v r h
+
+/-- **No decode target looks past the item it reads**: appending anything behind the input changes the
+decoded value of no target and nothing but the rest that is handed back — for every schema constructor,
+through pointers, wrappers, raw passes, COSE headers and `interface{}` values alike. -/
+theorem typed_decode_ignores_suffix (ok : CertOracle) (f d : Nat) (s : Schema) (b t : Bytes) (v : Val) (r : Bytes)
+    (h : decodeS ok f d s b = some (v, r)) : decodeS ok f d s (b ++ t) = some (v, r ++ t) :=
+  decodeS_append ok f d s b t v r h
 
 /-- Whole-buffer decoding into any type never succeeds with bytes left over. -/
 theorem typed_unmarshal_no_trailing (ok : CertOracle) (s : Schema) (b : Bytes) (v : Val) (h : unmarshalS ok s b = some v) :
